@@ -514,6 +514,14 @@ def simulate(rng, tmp, p):
                     counters_[k] = counters_.get(k, 0) + 1
                 newgroups.setdefault("%s_run%d" % (g, part_of[r["name"]]), []).append(r)
         groups = newgroups
+    if p.get("names_per_chrom"):
+        # read numbering restarts on every contig (as some simulators and mergers do): names recur across contigs
+        cnt = {}
+        for r in sim.reads:
+            if r["name"] not in rename:
+                k = cnt.get((r["chrom"], r["sample"]), 0)
+                cnt[(r["chrom"], r["sample"])] = k + 1
+                rename[r["name"]] = "%s_read%d" % (r["sample"], k)
     if p.get("names_per_sample"):
         # one file holding several samples (read groups) whose reads are numbered independently: names recur across samples
         cnt = {}
@@ -847,10 +855,12 @@ def simulate_poly(rng, tmp, p):
                 g = sorted(sim.haps[c][s][h][i] for h in range(P))
                 if p.get("gt_noise") and rng.random() < p["gt_noise"]:
                     # a genotype call that disagrees with the reads: one allele copy replaced by another allele of the record
-                    k = rng.randrange(P)
-                    g[k] = rng.choice([x for x in range(len(v["alts"]) + 1) if x != g[k]])
+                    for k in rng.sample(range(P), 2 if (P >= 3 and rng.random() < 0.4) else 1):
+                        g[k] = rng.choice([x for x in range(len(v["alts"]) + 1) if x != g[k]])
                     g.sort()
                     sim.gt_noise_sites = getattr(sim, "gt_noise_sites", 0) + 1
+                if p.get("gt_missing") and rng.random() < p["gt_missing"]:
+                    g = ["."] * P
                 calls.append({"GT": "/".join(str(x) for x in g), "GQ": str(rng.randint(20, 99))})
             d.records.append({"chrom": c, "pos": v["pos"] + 1, "id": ".", "ref": v["ref"], "alts": v["alts"], "qual": "50", "filter": "PASS",
                               "info": "DP=%d" % rng.randint(5, 90), "fmt": ["GT", "GQ"], "calls": calls, "kind": "snv"})
